@@ -4,7 +4,7 @@
 EXTENDS Osaca, Json, IOUtils
 Cases == ndJsonDeserialize(IOEnv.CASES)
 VARIABLE tid
-Check == LET c == Cases[tid] v == RunTrace(c.fixed, c.flagDeps, c.events) IN
+Check == LET c == Cases[tid] v == RunTraceFD(c.fixed, c.flagDeps, c.fd, c.events) IN
          IF v = "ok" THEN TRUE ELSE PrintT(<<"REJECT", c.id, v>>)
 TraceInit == tid = 1
 TraceNext == tid < Len(Cases) /\ tid' = tid + 1
